@@ -9,6 +9,21 @@ CHECKS = {
             "Every call of eval_expr/eval_bv_expr/eval_array_expr made by the workload is judged by an independent num-bigint SMT-LIB evaluator (value, width, canonical words, is_equal, interning, short-circuit). Held on the N executions in the evidence file; no claim beyond them.",
             "Trusts the reference semantics refsem/bv.rs (cross-checked against z3) and the release-profile build; generated expressions only (depth<=4, widths<=~190).",
             "DESIGN.md §4 C06"),
+    "C01": ("exploration",
+            "runtime differential monitor: simplifier input/output and every rewrite step (hook H2) judged by a big-integer reference evaluator + deep type check",
+            "Each simplifier execution of the workload (three entry points) is observed end to end and step by step through the H2 rewrite observer; values compared on all assignments (small scope, exhaustive depth<=2 terms) or 24 corner/correlated assignments (random rule-directed DAGs). Held on the executions listed in the evidence.",
+            "Equivalence by evaluation only (no proof); trusts refsem R1/R2; system-level application is covered by C11.",
+            "DESIGN.md §4 C01"),
+    "C12": ("exploration",
+            "runtime monitor: shadow structural map over builder-call histories, periodic re-lookup of all references",
+            "Every builder call of long generated histories is checked against a shadow hash-consing map (same key same ref, new key fresh ref, normalisations), every earlier reference is looked up again every 1000 calls; literals come from 14 computation routes. Held on the histories executed.",
+            "Keys are computed by the harness from the arguments it passed; context clones audited separately.",
+            "DESIGN.md §4 C12"),
+    "C13": ("exploration",
+            "runtime monitor: reference equality of simplifier results across call histories and cache containers; logical step counter (hook H2) for termination",
+            "Batches of expressions sharing sub-terms are simplified alone, twice, and through shared sparse/dense simplifiers in random orders; returned references must coincide; termination is bounded progress: <= 10^6 rewrite events per call. Held on the batches executed.",
+            "Termination is restated as a step bound; no normal form is demanded.",
+            "DESIGN.md §4 C13"),
 }
 
 NOT_YET = {}
